@@ -15,22 +15,27 @@ RULE = ("exhaustive: m = 2; every non-empty set of distinct strict orders over 3
         "vote); verdict compared with the reference c13.decide, which enumerates all (m-1)^(m-1) parent assignments. "
         "planted m in 7..30, n <= 30: votes grown from a random tree which itself passes c13.check, so the verdict "
         "must be True and the returned edge list must pass c13.check; the same sizes with noise votes: only 'True => "
-        "valid tree'. non-trivial = at least 4 alternatives and at least 2 distinct orders")
+        "valid tree' through the checker. On EVERY case the verdict is also compared with the mirror of the algorithm "
+        "(Model/TreeAlgo.v, ops c13.algo / c13.algo2 = two different instantiations of the unspecified set iteration "
+        "orders), which is proved to return exactly spt_decide's verdict at every size (trick_decides), so the "
+        "large noisy cases are judged exactly as well. non-trivial = at least 4 alternatives and at least 2 distinct "
+        "orders")
 EXHAUSTIVE = {"quick": "m = 2; all sets of distinct strict orders for m = 3 (63 sets x 2 storage orders); all sets of "
                        "1..3 distinct orders for m = 4 x 2 storage orders; m = 5: identity + each other order",
               "thorough": "m = 2; all sets of distinct strict orders for m = 3; all sets of 1..4 distinct orders for "
                           "m = 4 x 2 storage orders and all sets of 5 orders (one storage order); m = 5: identity "
                           "+ each other order, identity + each pair of other orders"}
-TRUSTED = ["not modelled: Trick's elimination loop in single_peaked_tree.py (is_single_peaked_on_tree, get_B, "
-           "get_bottom_alts, restrict_preferences) and OrdinalInstance.flatten_strict; the implementation is compared "
-           "with the proved reference decider for m <= 7 (8 in thorough) and its returned tree goes through the proved checker at "
-           "every size; a wrong False on a large profile that is single-peaked on a tree would only be seen on the "
-           "planted positives (m <= 30)"]
+TRUSTED = ["the mirror Model/TreeAlgo.v of is_single_peaked_on_tree / get_B / get_bottom_alts / restrict_preferences is "
+           "hand-written; it is proved sound, complete and terminating for every admissible iteration order of the two "
+           "Python sets, and tied to the code by comparing verdicts on every case (edge lists are not compared, they "
+           "depend on set order; the implementation's list goes through the proved checker). "
+           "OrdinalInstance.flatten_strict is not modelled (strict orders are passed as singleton classes)"]
 ASSUMPTIONS = ["profiles of strict complete orders (data_type soc) over >= 2 alternatives with distinct positive "
                "integer ids; alternatives_name lists exactly the alternatives of the orders"]
 TIMEOUT_S = 10.0
 CHUNK = 25
-THEOREMS_FOR_OP = {"c13.decide": "spt_decide_correct, spt_check_correct", "c13.check": "spt_check_correct"}
+THEOREMS_FOR_OP = {"c13.decide": "spt_decide_correct, spt_check_correct, trick_decides",
+                   "c13.check": "spt_check_correct, trick_decides", "c13.witness": "spt_check_correct, trick_decides"}
 
 
 # ---------------------------------------------------------------------------------------------------------------
